@@ -175,6 +175,58 @@ def _(c):
     rem = c.call(p.remove, cat)
     c.ensure('remove', rem == M)
 
+# ---------------------------------------------------------------- MD / SHA / BLAKE length strengthening
+HASHPADS = {'MD512': lambda: pad.MDpadding(512, 32), 'SHA512': lambda: pad.SHApadding(512, 32), 'SHA1024': lambda: pad.SHApadding(1024, 64),
+            'BLAKE224': lambda: pad.Blakepadding(224), 'BLAKE256': lambda: pad.Blakepadding(256), 'BLAKE384': lambda: pad.Blakepadding(384), 'BLAKE512': lambda: pad.Blakepadding(512)}
+def spec_hashpad(kind, M, L):
+    """message bits || 1 || minimal 0* || (BLAKE: marker bit) || L on two words -- FIPS 180-4 5.1, RFC 1321 3.1-3.2, BLAKE 2.1.2"""
+    from spec import sha as S, blake as B
+    if kind.startswith('BLAKE'): return B.pad_tail(list(M), L, L, int(kind[5:]))
+    bs = int(kind[3:] if kind.startswith('SHA') else kind[2:])
+    return S.pad_tail(list(M), L, L, bs, bs // 8, kind.startswith('MD'))
+def _hp_cases(tier):
+    out = []
+    for kind in HASHPADS:
+        bl = 128 if kind in ('SHA1024', 'BLAKE384', 'BLAKE512') else 64; ws = bl // 8
+        if tier == 'quick' and kind in ('BLAKE224', 'BLAKE384'): continue
+        ns = {0, 1, bl - ws - 1, bl - ws, bl - ws + 1, bl - 1, bl, bl + 1, 2 * bl - ws, 2 * bl} if tier == 'quick' else set(range(0, 2 * bl + 2)) | {3 * bl - ws, 3 * bl}
+        for n in sorted(ns):
+            for r in ((0, 1, 7) if tier == 'quick' else range(8)) if n else (0,):
+                out.append({'kind': kind, 'n': n, 'r': r})
+    return out
+@obligation(P, 'hash-paddings/iterblocks', cls='B', cases=_hp_cases, funcs=['crysp.padding.blockiterator.iterblocks', 'crysp.padding.MDpadding.lastblock', 'crysp.padding.SHApadding.lastblock', 'crysp.padding.Blakepadding.lastblock'],
+            bound='MD(512), SHA(512/1024), BLAKE(224..512) paddings; message lengths 0..2 blocks+1 byte (quick: the spill boundaries), bit residues 0..7 (quick: 0,1,7); contents symbolic')
+def _(c):
+    kind, n, r = c.case('kind'), c.case('n'), c.case('r')
+    p = HASHPADS[kind](); bs = p.blocksize; bl = bs // 8
+    M = c.bytes('M', n)
+    L = 8 * n - ((8 - r) % 8)
+    blocks = drain(c.call(p.iterblocks, M, **({'bitlen': L} if r else {})), lambda: p.bitcnt)
+    exp = spec_hashpad(kind, M, L)
+    c.ensure('concat', val.eq([b for blk, _ in blocks for b in blk], exp))
+    c.ensure('block-lengths', all(len(blk) == bl for blk, _ in blocks))
+    lb = bs // 8 + (1 if kind.startswith('BLAKE') else 0)          # bits of the length field (+ marker bit)
+    c.ensure('minimal-count', len(blocks) == (L + 1 + lb + bs - 1) // bs)
+    for i, (blk, cnt) in enumerate(blocks):
+        c.ensure('bitcnt[%d]' % i, cnt == (min(L, (i + 1) * bs) if L > i * bs else 0))
+    c.ensure('padflag', p.padflag is True)
+    o = c.outcome(lambda: drain(c.call(p.iterblocks, b'x' * bl), lambda: 0))
+    c.ensure('second-message-refused', o[0] == 'exc' and isinstance(o[1], PaddingError))
+
+def _lb_cases9(tier):
+    from props import C01, C11
+    f = (lambda m: m._lb_quick(tier)) if tier == 'quick' else (lambda m: m._lb_cases(tier))
+    return [dict(d, fam='sha') for d in f(C01)] + [dict(d, fam='blake') for d in f(C11)]
+def _lastblock9(c):
+    from props import C01, C11
+    return (C01._lastblock if c.case('fam') == 'sha' else C11._lastblock)(c)
+@obligation(P, 'hash-paddings/lastblock/boundary', cls='B', tiers=('quick',), cases=_lb_cases9, funcs=['crysp.padding.SHApadding.lastblock', 'crysp.padding.MDpadding.lastblock', 'crysp.padding.Blakepadding.lastblock', 'crysp.bits.pack'],
+            bound='tail lengths at the padding-spill boundary and block ends x every bit residue (quick tier); the thorough tier proves every tail length (class L); bits-before counter symbolic')
+def _(c): return _lastblock9(c)
+@obligation(P, 'hash-paddings/lastblock/post', cls='L', tiers=('thorough',), cases=_lb_cases9, funcs=['crysp.padding.SHApadding.lastblock', 'crysp.padding.MDpadding.lastblock', 'crysp.padding.Blakepadding.lastblock', 'crysp.bits.pack'],
+            note='every tail length 0..blocklen x every bit residue; bits-before counter symbolic (any multiple of the block size)')
+def _(c): return _lastblock9(c)
+
 @obligation(P, 'canary/pkcs7', cls='L', canary=True, funcs=['crysp.padding.pkcs7.lastblock'])
 def _(c):
     p = pad.pkcs7(64); M = c.bytes('M', 3)
